@@ -653,7 +653,7 @@ def check_C07(A, R, tier):
     R.floor("R7.4", "upstream-failure emissions", n, 2)
     for name in list(EVENTS) + ["abort_remaining", "event_startup"]:
         b = A.evaluator_fn(name)
-        runs = [A.startup_run()] if name == "event_startup" else ([A.joined_run(b)] if name == "abort_remaining" else list(A.event_runs(name).values()))
+        runs = A.startup_runs() if name == "event_startup" else ([A.joined_run(b)] if name == "abort_remaining" else list(A.event_runs(name).values()))
         bad = [v for r_ in runs for v in r_.by_kind("push_signal") if K["upfail"] in v["kinds"]]
         R.ob("R7.4", "%s | does not signal upstream failure itself" % name, not bad)
     # R7.6: a stale consider signal for a finished job is a no-op
@@ -937,7 +937,7 @@ def check_C13(A, R, tier):
     # the acknowledgement signal comes from the acknowledgement event only
     for name in list(EVENTS) + ["abort_remaining", "event_startup"]:
         b = A.evaluator_fn(name)
-        runs = [A.startup_run()] if name == "event_startup" else ([A.joined_run(b)] if name == "abort_remaining" else list(A.event_runs(name).values()))
+        runs = A.startup_runs() if name == "event_startup" else ([A.joined_run(b)] if name == "abort_remaining" else list(A.event_runs(name).values()))
         has = any(K["cleanup"] in v["kinds"] for r_ in runs for v in r_.by_kind("push_signal"))
         if name == "event_job_cleanup_done":
             R.ob("R13.2", "%s queues the acknowledgement signal" % name, has)
@@ -1160,10 +1160,12 @@ def check_C10(A, R, tier):
     R.ob("R10.3", "new_history accepts exactly one start status", len(acc) == 1, detail=str([A.uni.show(A.L.startstatus, s) for s in acc]))
     if len(acc) == 1:
         # is_finished with all jobs finished stores exactly that status
-        r = A.run(isf.name, "ISF10", dict(self_init={A.L.start_field: fin(A.L.startstatus, [s for s in ss if s != s0 and s != acc[0]] or [acc[0]])},
-                                          default_states=fin(A.L.jobstate, C["Finished"]), cell_init={"alljobs": fin(A.L.jobstate, C["Finished"])}))
-        st = [v for v in r.by_kind("store_self") if v["proj"][:1] == (("f", A.L.start_field),)]
-        okst = bool(st) and all(v["value"][0] == "fin" and set(v["value"][2]) == {acc[0]} for v in st)
+        okst = True
+        for fs_ in sorted(C["Finished"]):
+            r = A.run(isf.name, "ISF10|%s" % A.sname(fs_), dict(self_init={A.L.start_field: fin(A.L.startstatus, [s for s in ss if s != s0 and s != acc[0]] or [acc[0]])},
+                                                             default_states=fin(A.L.jobstate, [fs_]), cell_init={"alljobs": fin(A.L.jobstate, [fs_])}))
+            st = [v for v in r.by_kind("store_self") if v["proj"][:1] == (("f", A.L.start_field),)]
+            okst = okst and bool(st) and all(v["value"][0] == "fin" and set(v["value"][2]) == {acc[0]} for v in st)
         R.ob("R10.3", "is_finished advances the start status to the one new_history accepts when all jobs are finished", okst)
     # R10.4: the history can be assembled for every way a job without output can end (aborted jobs included)
     from rules_compare import rule_history_after_any_outcome
@@ -1402,7 +1404,7 @@ def check_C02(A, R, tier):
     # the ready signal comes from nowhere else
     for name in list(EVENTS) + ["abort_remaining", "event_startup"]:
         b = A.evaluator_fn(name)
-        runs = [A.startup_run()] if name == "event_startup" else ([A.joined_run(b)] if name == "abort_remaining" else list(A.event_runs(name).values()))
+        runs = A.startup_runs() if name == "event_startup" else ([A.joined_run(b)] if name == "abort_remaining" else list(A.event_runs(name).values()))
         has = any(K["ready"] in v["kinds"] for r_ in runs for v in r_.by_kind("push_signal"))
         R.ob("R2.1", "%s | does not announce jobs ready itself" % name, not has)
     # R2.2: Ready is entered only by the ready handler (so the gate above guards every offer), finished is stable (R17.2)
